@@ -216,6 +216,35 @@ def expect_mc_violation(res, what, names):
         raise ToolError(f"{what}: expected a counterexample for {names}, got {res.get('violated')}\n{res['raw'][-2000:]}")
 
 
+def apalache_inductive(spec, ind_init="IndInit", ind_inv="IndInv", safe="Safe", init="Init", timeout=900):
+    """Optional unbounded argument with Apalache (symbolic): Init => IndInv, IndInv /\\ Next => IndInv',
+    IndInv => Safe.  Returns a dict for the evidence; a counterexample is a spec-level error
+    (ToolError), a timeout or a missing tool only shows up as status (no verdict depends on it)."""
+    out = os.path.join(OUT, "apalache")
+    os.makedirs(out, exist_ok=True)
+    if shutil.which("apalache-mc") is None:
+        return {"status": "apalache-mc not installed"}
+    obligations = [("Init => IndInv", ["--init=" + init, "--inv=" + ind_inv, "--length=0"]),
+                   ("IndInv /\\ Next => IndInv'", ["--init=" + ind_init, "--inv=" + ind_inv, "--length=1"]),
+                   ("IndInv => Safe", ["--init=" + ind_init, "--inv=" + safe, "--length=0"])]
+    res = {"status": "proved", "obligations": [], "spec": spec}
+    for name, args in obligations:
+        try:
+            rc, text, dt = sh(["apalache-mc", "check"] + args + ["--out-dir=" + out, spec], cwd=SPEC, timeout=timeout)
+        except ToolError:
+            res["status"] = f"timeout in: {name}"
+            break
+        if "EXITCODE: OK" in text:
+            res["obligations"].append({"obligation": name, "wall_s": round(dt, 1)})
+        elif "violated" in text or "Found 1 error" in text:
+            raise ToolError(f"Apalache refutes '{name}' of {spec} (spec-level error)\n{text[-1500:]}")
+        else:
+            res["status"] = f"apalache error in: {name}"
+            break
+    shutil.rmtree(out, ignore_errors=True)
+    return res
+
+
 # ------------------------------------------------------------------------------------------------
 # Known findings, violations, evidence
 # ------------------------------------------------------------------------------------------------
